@@ -18,7 +18,7 @@ use std::pin::Pin;
 use std::sync::atomic::{AtomicBool, AtomicUsize, Ordering};
 use std::sync::mpsc::{channel, Receiver, RecvTimeoutError, Sender};
 use std::sync::{Arc, Mutex};
-use std::task::{Context, Poll, Wake, Waker};
+use std::task::{Context, Poll, Waker};
 use std::time::Duration;
 
 type BoxError = Box<dyn std::error::Error + Send + Sync>;
@@ -26,11 +26,8 @@ type BoxError = Box<dyn std::error::Error + Send + Sync>;
 struct IdWaker {
     hits: AtomicUsize,
 }
-impl Wake for IdWaker {
-    fn wake(self: Arc<Self>) {
-        self.wake_by_ref()
-    }
-    fn wake_by_ref(self: &Arc<Self>) {
+impl IdWaker {
+    fn hit(&self) {
         self.hits.fetch_add(1, Ordering::SeqCst);
         // A waker may run arbitrary code (an eager executor polls the task inside wake()), and a
         // thread may be preempted right after it: the point just after the wake-up is a scheduling
@@ -45,6 +42,35 @@ impl Wake for IdWaker {
 
 thread_local! {
     static IN_WAKE: std::cell::RefCell<Option<Box<dyn FnMut()>>> = const { std::cell::RefCell::new(None) };
+    static IN_CLONE: std::cell::RefCell<Option<Box<dyn FnMut()>>> = const { std::cell::RefCell::new(None) };
+}
+
+/// A `Waker` over an `IdWaker` whose `clone` is a scheduling point too (cloning a waker is user
+/// code as well: it may be slow, and the thread may be preempted inside it).
+fn hooked_waker(a: Arc<IdWaker>) -> Waker {
+    use std::task::{RawWaker, RawWakerVTable};
+    unsafe fn clone(p: *const ()) -> RawWaker {
+        IN_CLONE.with(|h| {
+            if let Some(f) = h.borrow_mut().as_mut() {
+                f();
+            }
+        });
+        Arc::increment_strong_count(p as *const IdWaker);
+        RawWaker::new(p, &VTABLE)
+    }
+    unsafe fn wake(p: *const ()) {
+        let a = Arc::from_raw(p as *const IdWaker);
+        a.hit();
+    }
+    unsafe fn wake_by_ref(p: *const ()) {
+        let a = std::mem::ManuallyDrop::new(Arc::from_raw(p as *const IdWaker));
+        a.hit();
+    }
+    unsafe fn drop_w(p: *const ()) {
+        drop(Arc::from_raw(p as *const IdWaker));
+    }
+    static VTABLE: RawWakerVTable = RawWakerVTable::new(clone, wake, wake_by_ref, drop_w);
+    unsafe { Waker::from_raw(RawWaker::new(Arc::into_raw(a) as *const (), &VTABLE)) }
 }
 
 enum PMsg {
@@ -183,8 +209,17 @@ fn run_case(out: &mut Out, case: &Value) {
     out.emit(json!({"ev": "build", "panic": false, "h": h, "writer": writer.is_some(), "gzhdr": gz, "sg": sg}));
 
     let probe = body.verif_probe().expect("streaming body has a probe");
+    let c_probe = body.verif_probe().expect("probe");
+    let p_probe = body.verif_probe().expect("probe");
+    let p_probe2 = body.verif_probe().expect("probe");
+    let c_probe2 = body.verif_probe().expect("probe");
+    // 1 / 2: the producer / the consumer is parked at a scheduling point while it holds the mutex
+    let holder = Arc::new(AtomicUsize::new(0));
+    // a wake-up delivered while the chunker's mutex is held (decided on the waking thread itself: under
+    // the baton nobody else runs, so a held mutex is held by the caller of wake())
+    let wake_locked = Arc::new(AtomicBool::new(false));
     let wakers: Vec<Arc<IdWaker>> = (0..NWAKERS).map(|_| Arc::new(IdWaker { hits: AtomicUsize::new(0) })).collect();
-    let std_wakers: Vec<Waker> = wakers.iter().map(|w| Waker::from(w.clone())).collect();
+    let std_wakers: Vec<Waker> = wakers.iter().map(|w| hooked_waker(w.clone())).collect();
     // ---- consumer thread: owns the body; runs one Reader operation per command.  Its yield hook
     // lets the first scheduling point of an operation through (the operation was scheduled as a
     // whole) and blocks at any further one, which then becomes a scheduling point of its own.
@@ -192,19 +227,39 @@ fn run_case(out: &mut Out, case: &Value) {
     let (c_msg_tx, c_msg_rx) = channel::<CMsg>();
     let (c_grant_tx, c_grant_rx) = channel::<()>();
     let c_wakers = std_wakers.clone();
+    let holder_c = holder.clone();
     let c_handle = std::thread::spawn(move || {
         let mut body = Some(Box::pin(body));
         let first = std::rc::Rc::new(std::cell::Cell::new(false));
         let first2 = first.clone();
         let tx_hook = c_msg_tx.clone();
+        let c_grant_rx = Arc::new(Mutex::new(c_grant_rx));
+        let c_grant_rx2 = c_grant_rx.clone();
         set_thread_hook(Some(Box::new(move |site: Site| {
             if first2.get() {
                 first2.set(false);
                 return;
             }
+            holder_c.store(if c_probe2.is_locked() { 2 } else { 0 }, Ordering::SeqCst);
             let _ = tx_hook.send(CMsg::Yield(site.name().to_string()));
-            let _ = c_grant_rx.recv();
+            let _ = c_grant_rx.lock().unwrap().recv();
+            holder_c.store(0, Ordering::SeqCst);
         })));
+        {
+            // cloning the waker outside the critical section is a scheduling point of the operation
+            // (inside it nothing can interleave anyway, and parking there would block everybody)
+            let tx_c = c_msg_tx.clone();
+            let rx_c = c_grant_rx2.clone();
+            IN_CLONE.with(|h| {
+                *h.borrow_mut() = Some(Box::new(move || {
+                    if c_probe.is_locked() {
+                        return;
+                    }
+                    let _ = tx_c.send(CMsg::Yield("waker_clone".to_string()));
+                    let _ = rx_c.lock().unwrap().recv();
+                }))
+            });
+        }
         while let Ok(CCmd::Op(op, w)) = c_cmd_rx.recv() {
             first.set(true);
             let mut r = no_res();
@@ -277,6 +332,7 @@ fn run_case(out: &mut Out, case: &Value) {
             let _ = c_msg_tx.send(CMsg::Done(r, bytes));
         }
         set_thread_hook(None);
+        IN_CLONE.with(|h| *h.borrow_mut() = None);
         drop(body);
     });
     let mut c_mid: Option<(String, usize)> = None;
@@ -297,20 +353,32 @@ fn run_case(out: &mut Out, case: &Value) {
                         curop: curop.clone(), cdropped: cdropped.clone(), pbuffered: pbuffered.clone() };
     let handle = if let Some(w) = writer {
         let payload2 = payload.clone();
+        let wake_locked2 = wake_locked.clone();
+        let holder2 = holder.clone();
         let h = std::thread::spawn(move || {
             let p_tx2 = p_tx.clone();
             let rx = Arc::new(Mutex::new(p_rx));
             let rx2 = rx.clone();
             let tx_hook = p_tx.clone();
+            let holder_p = holder2.clone();
             set_thread_hook(Some(Box::new(move |site: Site| {
+                // parked inside a critical section: only this thread can run until it leaves it
+                holder_p.store(if p_probe2.is_locked() { 1 } else { 0 }, Ordering::SeqCst);
                 let _ = tx_hook.send(PMsg::Yield(site.name().to_string()));
                 let _ = rx2.lock().unwrap().recv();
+                holder_p.store(0, Ordering::SeqCst);
             })));
             {
                 let tx_w = p_tx.clone();
                 let rx_w = rx.clone();
+                let wl = wake_locked2.clone();
                 IN_WAKE.with(|h| {
                     *h.borrow_mut() = Some(Box::new(move || {
+                        if p_probe.is_locked() {
+                            // (no scheduling point here: everybody else would block on the mutex)
+                            wl.store(true, Ordering::SeqCst);
+                            return;
+                        }
                         let _ = tx_w.send(PMsg::Yield("after_wake".to_string()));
                         let _ = rx_w.lock().unwrap().recv();
                     }))
@@ -429,7 +497,22 @@ fn run_case(out: &mut Out, case: &Value) {
     let is_gz = gz;
 
     // helper closures are awkward with the borrow checker; use macros instead
-    macro_rules! snapshot { () => { probe.snapshot(&std_wakers) }; }
+    // The controller must never block on the chunker's mutex: if it is held while every thread is
+    // parked (a thread parked at a scheduling point *inside* a critical section -- never on the
+    // pinned tree), the last snapshot stands (nothing can have changed) and `lock_held` is recorded.
+    let last_snap = std::cell::RefCell::new(http_serve::verif::Snapshot {
+        state: "ok", ready: Vec::new(), ready_bytes: 0, writer_dropped: false, waker: None });
+    let lock_held = std::cell::Cell::new(false);
+    macro_rules! snapshot {
+        () => {{
+            if probe.is_locked() {
+                lock_held.set(true);
+            } else {
+                *last_snap.borrow_mut() = probe.snapshot(&std_wakers);
+            }
+            last_snap.borrow().clone()
+        }};
+    }
     macro_rules! collect_wakes {
         () => {{
             let mut w = 0usize;
@@ -459,7 +542,7 @@ fn run_case(out: &mut Out, case: &Value) {
         json!({"ev": "step", "t": t, "done": [], "wake": 0, "cop": "", "w": 0, "r": no_res(),
                "inflight": ctl.inflight.load(Ordering::SeqCst), "curop": *ctl.curop.lock().unwrap(),
                "snap": snap, "pfin": pfin, "buffered": *ctl.pbuffered.lock().unwrap(), "cap": cap, "gz": is_gz,
-               "site": ""})
+               "site": "", "wake_locked": false, "lock_held": false})
     };
     {
         // initial event: operations completed before the first scheduling point
@@ -492,7 +575,13 @@ fn run_case(out: &mut Out, case: &Value) {
         let can_poll_nospur = alive && (park == 0 || woken[park]);
         let can_poll = alive && (can_poll_nospur || spur < maxspur);
         // ---- choose the next step
-        let choice: Option<(String, String, usize)> = if let Some((mop, mw)) = c_mid.clone() {
+        let hold = holder.load(Ordering::SeqCst);
+        let choice: Option<(String, String, usize)> = if hold == 1 && ctl.psite.is_some() {
+            Some(("P".into(), "".into(), 0))
+        } else if hold == 2 && c_mid.is_some() {
+            let (mop, mw) = c_mid.clone().unwrap();
+            Some(("C".into(), mop, mw))
+        } else if let Some((mop, mw)) = c_mid.clone() {
             // a consumer operation is parked at a second scheduling point inside the operation
             // (does not happen on the pinned tree): interleave the producer with its continuation
             if si < sched.len() {
@@ -578,6 +667,8 @@ fn run_case(out: &mut Out, case: &Value) {
             e["done"] = json!(done);
             e["wake"] = json!(wake);
             e["site"] = json!(site);
+            e["wake_locked"] = json!(wake_locked.swap(false, Ordering::SeqCst));
+            e["lock_held"] = json!(lock_held.replace(false));
             flush_facts(&mut e, &ctl, &delivered, &probe, is_gz);
             out.emit(e);
             if let Some(msg) = xerr {
